@@ -393,7 +393,13 @@ func (fc *FuncCtx) execCall(x *ssa.Call, st *State, reach string) {
 			fc.execParamCall(x, pn, args, st, reach)
 			return
 		}
-		panic(unsupported(fmt.Sprintf("call through a function value (%s)", c.Value)))
+		// a function value of unknown origin: arbitrary code
+		site := fc.siteKey("funcvalue")
+		fc.oblige(fmt.Sprintf("call.%s/nonnil", site), "nil", reach, "(not (= "+callee.T+" 0))", x.Pos(), "call of nil function")
+		fc.noteAssumption(fmt.Sprintf("call through a function value (%s): treated as arbitrary code", site))
+		fc.havocForArbitraryCall(args, nil, st, reach)
+		fc.vals[x] = fc.arbitraryResults(c.Signature(), st, reach)
+		return
 	}
 	fn := callee.Fn
 	var bindings []Val
@@ -496,49 +502,8 @@ func (fc *FuncCtx) callFunction(x *ssa.Call, fn *ssa.Function, args []Val, bindi
 		}
 	}
 	if ct == nil && ss == nil {
-		// arbitrary code: every heap component, every global and every local whose
-		// address is passed may be written; the results are arbitrary values of their types
-		fc.sawUnknownCall = true
 		fc.noteAssumption(fmt.Sprintf("call to %s (%s) has no contract: treated as arbitrary code (writes any heap location, returns any value)", fn.String(), site))
-		old := fc.next(st)
-		n := fc.fresh("Int", "next_u")
-		fc.emit("(assert (>= " + n + " " + old + "))")
-		st.m[nextKey] = n
-		fc.touched[nextKey] = true
-		var keys []string
-		for k := range st.m {
-			if heapLikeKey(k) {
-				keys = append(keys, k)
-			}
-		}
-		for k := range fc.compSort {
-			if heapLikeKey(k) {
-				if _, ok := st.m[k]; !ok {
-					keys = append(keys, k)
-				}
-			}
-		}
-		sort.Strings(keys)
-		for _, k := range keys {
-			st.m[k] = fc.fresh(fc.compSort[k], "u_"+shortKey(k))
-			fc.touched[k] = true
-		}
-		reachable := append(append([]Val{}, args...), bindings...)
-		for _, a := range args {
-			if a.Clo != nil { // a closure handed to arbitrary code may be called: its captured variables may be written
-				for _, b := range a.Clo.Bindings {
-					reachable = append(reachable, fc.val(st, b))
-				}
-			}
-		}
-		for _, a := range reachable {
-			if a.LV != nil && a.LV.Kind == lvCell {
-				lv := *a.LV
-				nv := fc.fresh(fc.S.SortOf(lv.Ty), "byref")
-				fc.store(st, &lv, nv)
-				fc.assume(reach, fc.typeInv(st, nv, lv.Ty))
-			}
-		}
+		fc.havocForArbitraryCall(args, bindings, st, reach)
 		return pack(mkResults(st, ""))
 	}
 
@@ -695,6 +660,65 @@ func (fc *FuncCtx) callFunction(x *ssa.Call, fn *ssa.Function, args []Val, bindi
 		}
 	}
 	return pack(rs)
+}
+
+
+// havocForArbitraryCall: the effect of code about which nothing is known. Every heap
+// component, every global and every local whose address is passed (directly or through a
+// closure) may be written.
+func (fc *FuncCtx) havocForArbitraryCall(args []Val, bindings []Val, st *State, reach string) {
+	fc.sawUnknownCall = true
+	old := fc.next(st)
+	n := fc.fresh("Int", "next_u")
+	fc.emit("(assert (>= " + n + " " + old + "))")
+	st.m[nextKey] = n
+	fc.touched[nextKey] = true
+	var keys []string
+	for k := range st.m {
+		if heapLikeKey(k) {
+			keys = append(keys, k)
+		}
+	}
+	for k := range fc.compSort {
+		if heapLikeKey(k) {
+			if _, ok := st.m[k]; !ok {
+				keys = append(keys, k)
+			}
+		}
+	}
+	sort.Strings(keys)
+	for _, k := range keys {
+		st.m[k] = fc.fresh(fc.compSort[k], "u_"+shortKey(k))
+		fc.touched[k] = true
+	}
+	reachable := append(append([]Val{}, args...), bindings...)
+	for _, a := range args {
+		if a.Clo != nil { // a closure handed to arbitrary code may be called: its captured variables may be written
+			for _, b := range a.Clo.Bindings {
+				reachable = append(reachable, fc.val(st, b))
+			}
+		}
+	}
+	for _, a := range reachable {
+		if a.LV != nil && a.LV.Kind == lvCell {
+			lv := *a.LV
+			nv := fc.fresh(fc.S.SortOf(lv.Ty), "byref")
+			fc.store(st, &lv, nv)
+			fc.assume(reach, fc.typeInv(st, nv, lv.Ty))
+		}
+	}
+}
+
+// arbitraryResults: fresh values of the result types of sig.
+func (fc *FuncCtx) arbitraryResults(sig *types.Signature, st *State, reach string) Val {
+	var rs []Val
+	for i := 0; i < sig.Results().Len(); i++ {
+		rt := sig.Results().At(i).Type()
+		t := fc.fresh(fc.S.SortOf(rt), "ures")
+		fc.assume(reach, fc.typeInv(st, t, rt))
+		rs = append(rs, Val{T: t, Ty: rt})
+	}
+	return packVals(sig, rs)
 }
 
 func (fc *FuncCtx) noteAssumption(s string) {
@@ -869,12 +893,19 @@ func (fc *FuncCtx) pureGoCall(fn *ssa.Function, args []Val) Val {
 }
 
 func (fc *FuncCtx) execParamCall(x *ssa.Call, pname string, args []Val, st *State, reach string) {
-	if fc.C == nil {
-		panic(unsupported("call through function parameter without contract"))
+	var sp *CallSpec
+	if fc.C != nil {
+		sp = fc.C.Calls[pname]
 	}
-	sp := fc.C.Calls[pname]
 	if sp == nil {
-		panic(unsupported(fmt.Sprintf("call through function-typed parameter %s needs a `calls %s(...) requires` clause", pname, pname)))
+		// nothing is said about the callback: it is arbitrary code
+		site := fc.siteKey(pname)
+		fv := fc.val(st, x.Call.Value)
+		fc.oblige(fmt.Sprintf("call.%s/nonnil", site), "nil", reach, "(not (= "+fv.T+" 0))", x.Pos(), "call of nil function")
+		fc.noteAssumption(fmt.Sprintf("call through the function value %s (%s): treated as arbitrary code", pname, site))
+		fc.havocForArbitraryCall(args, nil, st, reach)
+		fc.vals[x] = fc.arbitraryResults(x.Call.Signature(), st, reach)
+		return
 	}
 	if len(sp.Args) != len(args) {
 		specFail("calls %s: arity mismatch", pname)
@@ -930,10 +961,15 @@ func (fc *FuncCtx) execInvoke(x *ssa.Call, st *State, reach string) {
 	if fc.C != nil {
 		ss = fc.C.Sites[site]
 	}
-	if ct == nil && ss == nil {
-		panic(unsupported(fmt.Sprintf("interface method call %s.%s (%s) without contract", it, m.Name(), site)))
-	}
 	fc.oblige(fmt.Sprintf("call.%s/nonnil", site), "nil", reach, "(not (= "+recv.T+" iface_nil))", x.Pos(), "method call on nil interface")
+	if ct == nil && ss == nil {
+		// dynamic dispatch to a method nothing is said about: arbitrary code
+		fc.noteAssumption(fmt.Sprintf("interface method call %s.%s (%s) has no contract: treated as arbitrary code", it, m.Name(), site))
+		args := fc.callArgs(st, c)
+		fc.havocForArbitraryCall(append([]Val{recv}, args...), nil, st, reach)
+		fc.vals[x] = fc.arbitraryResults(m.Type().(*types.Signature), st, reach)
+		return
+	}
 	pre := st.clone()
 	sig := m.Type().(*types.Signature)
 	args := fc.callArgs(st, c)
